@@ -416,7 +416,7 @@ macro_rules! entry_harnesses {
         }
 
         #[kani::proof]
-        #[kani::unwind(4)]
+        #[kani::unwind(3)]
         fn $seq() {
             let a: u64 = kani::any();
             let b: i64 = kani::any();
